@@ -345,6 +345,15 @@ def _signed(v: int, dt: str) -> int:
 
 
 def _real_rows(case):
+    try:
+        return _real_rows_(case)
+    except AttributeError as e:
+        # the unit has no shim for this function: its text (or the selected statements) could not be extracted from the
+        # current source — the translator reports that as an untranslatable block; only the differential is skipped
+        return None, f'no stand-alone shim for {case["fn"]} in the compiled unit ({e})'
+
+
+def _real_rows_(case):
     lib, err, srcs = _lib(case['fn'])
     if lib is None:
         return None, 'stand-alone compilation of the extracted text failed: ' + (err or '')
